@@ -685,7 +685,7 @@ class Engine:
         self.choice_log.append(0)
         return 0
 
-    def assume(self, cond):
+    def assume(self, cond, check=True):
         if isinstance(cond, SB):
             e = cond.e
         elif isinstance(cond, z3.BoolRef):
@@ -695,6 +695,8 @@ class Engine:
                 raise PathAbort()
             return
         self._assert_path(e)
+        if not check:
+            return  # the caller knows the assumption is satisfiable (saves a model search)
         r, _ = self._check()
         if r == z3.unknown:
             raise Inconclusive('solver unknown on assumption')
